@@ -44,6 +44,19 @@ Curl(F) == <<PSub(PDiff(F[3], 2), PDiff(F[2], 3)),
              PSub(PDiff(F[2], 1), PDiff(F[1], 2))>>
 
 VEval(F, pt) == <<PEval(F[1], pt), PEval(F[2], pt), PEval(F[3], pt)>>
+VSub(F, G)   == <<PSub(F[1], G[1]), PSub(F[2], G[2]), PSub(F[3], G[3])>>
+
+\* A field together with the coordinate system it is written in.  f is the field itself (its Cartesian polynomial
+\* components): the statement says that the operator of EVERY system gives the true operator of the field, written
+\* in the local basis of THAT system - the result is again a field of the same system and can be fed to the
+\* operators again (curl curl, grad div, div grad, div curl, curl grad).
+Systems == {"cart", "cyl", "sph"}
+Tag(sys, k, f) == [sys |-> sys, k |-> k, f |-> f]
+TGrad(t) == Tag(t.sys, "v", Grad(t.f[1]))
+TDiv(t)  == Tag(t.sys, "s", <<Div(t.f)>>)
+TCurl(t) == Tag(t.sys, "v", Curl(t.f))
+Lap(f)   == Div(Grad(f))                                    \* Laplacian of a scalar field
+VLap(F)  == <<Lap(F[1]), Lap(F[2]), Lap(F[3])>>             \* of the Cartesian components
 
 \* exact points where the sines and cosines of the cylindrical and of both spherical angles are rational:
 \* x^2 + y^2 and x^2 + y^2 + z^2 are squares of rationals (rho = 5, 3, 10; r = 13, 5, 25/2)
@@ -114,6 +127,18 @@ TypeOK == /\ kind \in {"s", "v"}
 CurlGradZero == kind = "s" => Curl(Grad(fld[1])) = VZero
 DivCurlZero  == kind = "v" => Div(Curl(fld)) = PZero
 
+\* results stay in the system of the argument and do not depend on it; curl curl = grad div - Laplacian
+Composition ==
+  \A sys \in Systems :
+    IF kind = "s"
+    THEN LET t == Tag(sys, "s", fld) IN
+         /\ TDiv(TGrad(t)) = Tag(sys, "s", <<Lap(fld[1])>>)
+         /\ TCurl(TGrad(t)) = Tag(sys, "v", VZero)
+    ELSE LET t == Tag(sys, "v", fld) IN
+         /\ TCurl(TCurl(t)) = Tag(sys, "v", VSub(Grad(Div(fld)), VLap(fld)))
+         /\ TDiv(TCurl(t)) = Tag(sys, "s", <<PZero>>)
+         /\ TGrad(TDiv(t)).sys = sys
+
 \* mixed partial derivatives commute (what both identities rest on)
 MixedPartials == \A i \in DOMAIN fld : \A v, w \in Vars :
                    PDiff(PDiff(fld[i], v), w) = PDiff(PDiff(fld[i], w), v)
@@ -157,8 +182,11 @@ Emit == Emitted =>
   PrintT(ToJson(
     IF kind = "s"
     THEN [kind |-> "s", terms |-> terms, pts |-> Points,
-          grad |-> [k \in DOMAIN Points |-> VEval(Grad(fld[1]), Points[k])]]
+          grad |-> [k \in DOMAIN Points |-> VEval(Grad(fld[1]), Points[k])],
+          divgrad |-> [k \in DOMAIN Points |-> PEval(Lap(fld[1]), Points[k])]]
     ELSE [kind |-> "v", terms |-> terms, pts |-> Points,
+          curlcurl |-> [k \in DOMAIN Points |-> VEval(Curl(Curl(fld)), Points[k])],
+          graddiv  |-> [k \in DOMAIN Points |-> VEval(Grad(Div(fld)), Points[k])],
           div  |-> [k \in DOMAIN Points |-> PEval(Div(fld), Points[k])],
           curl |-> [k \in DOMAIN Points |-> VEval(Curl(fld), Points[k])]]))
 
